@@ -34,6 +34,7 @@ NAMES = ["a.h", "xa.h", "a.hpp", "a.h.in", "sub/a.h", "sub/xa.h", "b.h", "my a.h
 def make_graph(rng, root):
     """write an include graph; returns (main, files dict name -> decl name, includes dict)"""
     names = rng.sample(NAMES, rng.randint(2, 6))
+    tail_run = rng.random() < 0.6
     if names[0].endswith(".in"):
         names.reverse()  # g++ does not preprocess a main file with an unknown suffix
     main = names[0]
@@ -57,9 +58,24 @@ def make_graph(rng, root):
         if rng.random() < 0.3:
             lines.append("#define M_%s 7" % decl[n])
         lines.append("int %s;" % decl[n])
+        if n == main and tail_run:
+            # a long run of lines that produce no output (pcpp re-synchronises with a `#line` for the SAME file after such a
+            # run), then a second declaration of the main file
+            kind = rng.choice(["defines", "if0", "blank", "comments"])
+            k = rng.randint(7, 14)
+            if kind == "defines":
+                lines.extend("#define P%d %d" % (q, q) for q in range(k))
+            elif kind == "if0":
+                lines.extend(["#if 0"] + ["junk %d" % q for q in range(k)] + ["#endif"])
+            elif kind == "blank":
+                lines.extend([""] * k)
+            else:
+                lines.extend("// c%d" % q for q in range(k))
+            lines.append("int w_tail;")
         lines.append("")
         with open(p, "w") as fp:
             fp.write("\n".join(lines))
+    decl["__tail__"] = "w_tail" if tail_run else None
     return main, decl, inc
 
 
@@ -163,8 +179,9 @@ def run(ctx):
                             ppall = PP.make_gcc_preprocessor(print_cmd=False, retain_all_content=True)
                         d = parse_file(mpath, options=ParserOptions(preprocessor=pp))
                         got = [v.name.segments[-1].name for v in d.namespace.variables]
-                        if got != [decl[main]]:
-                            fails.append({"input": {"main": mpath, "includes": inc, "backend": backend}, "diff": "declarations seen: %s, expected only %s" % (got, [decl[main]])})
+                        want_decls = [decl[main]] + ([decl["__tail__"]] if decl.get("__tail__") else [])
+                        if got != want_decls:
+                            fails.append({"input": {"main": mpath, "includes": inc, "backend": backend}, "diff": "declarations seen: %s, expected only %s" % (got, want_decls)})
                         # line numbers still refer to the main file
                         src_lines = open(os.path.join(root, main)).read().split("\n")
                         want_line = 1 + next(i for i, l in enumerate(src_lines) if l.startswith("int "))
@@ -183,10 +200,15 @@ def run(ctx):
                             fails.append({"input": {"main": mpath, "includes": inc, "backend": backend}, "diff": "second use of the same preprocessor function on the same file reports no declaration"})
                         elif locs[0][1] != want_line:
                             fails.append({"input": {"main": mpath, "includes": inc, "backend": backend}, "diff": "main declaration reported at line %s, written on line %s" % (locs[0][1], want_line)})
+                        elif decl.get("__tail__"):
+                            want2 = 1 + next(i for i, l in enumerate(src_lines) if l.startswith("int w_tail"))
+                            if len(locs) < 2 or locs[1][1] != want2:
+                                fails.append({"input": {"main": mpath, "includes": inc, "backend": backend, "main_text": "\n".join(src_lines)},
+                                              "diff": "second main declaration (after a run of lines without output) reported at line %s, written on line %s" % (locs[1][1] if len(locs) > 1 else None, want2)})
                         dall = parse_file(mpath, options=ParserOptions(preprocessor=ppall))
                         # a file reached twice without an include guard appears twice: compare as sets
                         gotall = sorted(set(v.name.segments[-1].name for v in dall.namespace.variables))
-                        wantall = sorted(set([decl[main]] + [decl[m] for m in included]))
+                        wantall = sorted(set(want_decls + [decl[m] for m in included]))
                         if gotall != wantall:
                             fails.append({"input": {"main": mpath, "includes": inc, "backend": backend, "retain_all_content": True}, "diff": "declarations seen: %s, expected %s" % (gotall, wantall)})
                         # raw output for the filter correspondence
